@@ -127,6 +127,9 @@ impl RecvHandle for Receiver {
             searched = self.buf.len().saturating_sub(MARKER.len() - 1);
             tracing::trace!("trying to read from transport");
             let len = self.read.read_buf(&mut self.buf).await?;
+            if len == 0 {
+                break Err(Error::from(io::Error::from(io::ErrorKind::UnexpectedEof)));
+            }
             tracing::trace!("read {len} bytes. buffer length is {}", self.buf.len());
         }
     }
